@@ -308,7 +308,9 @@ class ReturnExecNode(ExecNode):
         """
         suffix = make_suffix(name_or_order)
         super().__init__(
-            id_=f"{func}{RETURN_NAME_SEP}{suffix}",
+            # the qualified name, like the ids of the arguments: repr(func) holds the address of the function object,
+            # a cache file written by one process would name ids that do not exist in the next one
+            id_=f"{func.__qualname__}{RETURN_NAME_SEP}{suffix}",
             is_sequential=False,
             resource=Resource.main_thread,
         )
